@@ -13,7 +13,7 @@ import sys
 import tempfile
 
 VERIF = os.path.dirname(os.path.dirname(os.path.abspath(__file__)))
-REPO = "/repo"
+REPO = os.environ.get("VP_RUN_REPO") or os.environ.get("MVF_REPO") or "/repo"
 
 
 def main():
@@ -26,12 +26,15 @@ def main():
             continue
         meta = json.load(open(os.path.join(VERIF, "seeded", d, "meta.json")))
         target = meta["breaks_property"]
-        props = props_all if allc else [target]
+        props = props_all if allc else [target] + [p for p in meta.get("also_check", []) if p != target]
         wt = tempfile.mkdtemp(prefix="mvf_seed_")
         os.rmdir(wt)
         try:
             subprocess.run(["git", "-C", REPO, "worktree", "add", "-q", "--detach", wt, "HEAD"], check=True)
-            subprocess.run(["git", "-C", wt, "apply", patch], check=True)
+            if subprocess.run(["git", "-C", wt, "apply", patch]).returncode != 0:
+                out[d] = {"breaks": target, "checks": {}, "error": "patch does not apply to HEAD"}
+                print(d, "PATCH DOES NOT APPLY", flush=True)
+                continue
             row = {}
             for p in props:
                 env = dict(os.environ, MVF_NO_EVIDENCE="1", MVF_REPO=wt)
